@@ -27,7 +27,10 @@ META = {
                    "field all of whose stores are validated), or by a reviewed invariant naming the site and the reason; for reviewed sites "
                    "the structural residue (cursor guard dominates the scan, cursor built from a (rank, select(rank)) pair) is still "
                    "checked. Raw-value propagation shows no unbounded caller value reaches an unsafe callee. The representation "
-                   "invariants behind the reviewed entries (cached counts, sampled positions) are C01-C04 arithmetic and are not decided.",
+                   "invariants behind the reviewed entries (cached counts, sampled positions) are C01-C04 arithmetic and are not decided, "
+                   "with one exception that is structural: R7 -- the cached count comes from a whole-word popcount, so every RawVector "
+                   "operation that shrinks or rebuilds the vector must pass the tail-clearing call on all paths (the C05.R1 rule, run here "
+                   "because a stale tail makes OneIter / select_unchecked walk past the buffer).",
     "trusted_base": ["rustc's MIR faithfully represents the source", "std's own unsafe contracts (from_raw_parts, get_unchecked, set_len) as documented"],
     "assumptions": ["structures are built through the safe API or loaded from bytes the library wrote (property scope)"],
 }
@@ -268,6 +271,11 @@ def check_config(ctx, F, tag, cfg):
     sites = ledger(ctx, F, tag)
     n = len(sites)
     check_rest(ctx, F, tag, cfg)
+    # R7: the cached number of set bits that the unchecked iterators and select paths trust (OneIter's remaining count,
+    # Complement::count_ones, select_unchecked's rank bound) is RawVector::count_ones() -- a popcount over whole words -- taken
+    # when a BitVector is made from a RawVector; it is exact only while the bits past `len` in the last word are zero.
+    import c05
+    c05.check_tail_invariant(ctx, F, tag, prefix="C08.R7.unused-bits-zero")
     return sites
 
 
